@@ -1,18 +1,20 @@
 ------------------------------ MODULE MC_Stats ------------------------------
 (* Use (M) for the formatter half of C20: the design of readable_count in    *)
 (* exact arithmetic satisfies the oracle ReadableOk on every count of the    *)
-(* bands  0..Dense,  m * 1024^k +- W  (m in {1, 10, 100, 1000, 1024},        *)
+(* bands  Dense (0..20000),  m * 1024^k +- W  (m in {1, 10, 100, 1000, 1024},        *)
 (* k = 1..6)  and  2^e +- 2 (e <= 70)  when Threshold = "byLength"; with     *)
 (* Threshold = "gt10" (the code as written) TLC finds the band just below    *)
 (* 10 * 1024^k in which no significant digit is shown (must FAIL).           *)
 EXTENDS Stats
-CONSTANTS Dense, W
+CONSTANTS Dense, W          \* Dense: set of small counts enumerated one by one
 VARIABLE n
 
 Ms == {1, 10, 100, 1000, 1024}
+DenseAll == 0..20000
+DenseQuick == (0..1100) \cup (9900..10300)
 Around(c) == {Add(c, FromNat(d)) : d \in 0..W} \cup {Sub(c, FromNat(d)) : d \in 1..W}
 Init ==
-  \/ \E i \in 0..Dense : n = FromNat(i)
+  \/ \E i \in Dense : n = FromNat(i)
   \/ \E m \in Ms, k \in 1..6 : n \in Around(ShiftL(FromNat(m), Base * k))
   \/ \E e \in 2..70, d \in {0, 1, 2} : n = Add(Pow2B(e), FromNat(d)) \/ n = Sub(Pow2B(e), FromNat(d))
 Next == UNCHANGED n
